@@ -151,7 +151,7 @@ fn rratio<R: Round>(m: u8, bits: u32) {
     nd::assume(i > -(1 << 20) && i < (1 << 20));
     let n: i64 = nd::any();
     let d: i64 = nd::any();
-    nd::assume(d != 0 && d.abs() < (1 << bits) && n.abs() <= d.abs());
+    nd::assume(d != 0 && d > -(1 << bits) && d < (1 << bits) && n >= -(1 << bits) && n <= (1 << bits) && n.abs() <= d.abs());
     let r = R::round_ratio(&small_i(i), small_i(n), &small_i(d));
     if n == 0 {
         assert!(r == Rounding::NoOp);
